@@ -83,26 +83,48 @@ def restoreIsolated (saved cur : Nat → Option BlockStack) : Nat → Option Blo
     | none => none
     | some b => (cur n).map (fun c => { instrs := c.instrs.take b.instrs.length, depth := b.depth })
 
-/-- `State::with_execution_state` -/
+/-- what the nested run sees as block table / loaded templates -/
+def enterBlocks : Mode → (Nat → Option BlockStack) → (Nat → Option BlockStack)
+  | .replace b, _ => b
+  | .keep, cur => cur
+  | .isolate, cur => cur
+
+def enterLoaded : Mode → List Nat → List Nat
+  | .replace _, _ => []          -- an included template starts its own inheritance chain
+  | .keep, l => l
+  | .isolate, l => l
+
+/-- `stack_depth` is only recorded (and restored) for `Keep` and `Replace` -/
+def exitFrames : Mode → Nat → List Frame → List Frame
+  | .isolate, _, fs => fs
+  | .keep, d, fs => truncate fs d
+  | .replace _, d, fs => truncate fs d
+
+def exitBlocks : Mode → (Nat → Option BlockStack) → (Nat → Option BlockStack) → (Nat → Option BlockStack)
+  | .keep, _, cur => cur
+  | .isolate, saved, cur => restoreIsolated saved cur
+  | .replace _, saved, _ => saved
+
+def exitLoaded : Mode → List Nat → List Nat → List Nat
+  | .keep, _, cur => cur
+  | .isolate, saved, _ => saved
+  | .replace _, saved, _ => saved
+
+/-- `State::with_execution_state`: the restore does not depend on the result of `f` -/
 def withExec (mode : Mode) (instr ae : Nat) (cb : Option Nat) (f : Body) (s : St) (o : Out) :
     Res × St × Out :=
-  let depth : Option Nat := match mode with | .isolate => none | _ => some s.frames.length
   let s1 : St :=
     { s with
       instructions := instr, autoEscape := ae, currentBlock := cb,
-      blocks := (match mode with | .replace b => b | _ => s.blocks),
-      loaded := (match mode with | .replace _ => [] | _ => s.loaded) }
+      blocks := enterBlocks mode s.blocks, loaded := enterLoaded mode s.loaded }
   let res := f s1 o
   let s2 := res.2.1
   (res.1,
    { s2 with
-     frames := (match depth with | some d => truncate s2.frames d | none => s2.frames),
+     frames := exitFrames mode s.frames.length s2.frames,
      instructions := s.instructions, autoEscape := s.autoEscape, currentBlock := s.currentBlock,
-     blocks := (match mode with
-       | .keep => s2.blocks
-       | .isolate => restoreIsolated s.blocks s2.blocks
-       | .replace _ => s.blocks),
-     loaded := (match mode with | .keep => s2.loaded | _ => s.loaded) },
+     blocks := exitBlocks mode s.blocks s2.blocks,
+     loaded := exitLoaded mode s.loaded s2.loaded },
    res.2.2)
 
 /-- `Context::depth` -/
@@ -138,6 +160,14 @@ def macroCall (instr cost limit : Nat) (base closureF : Frame) (body : Body) (s 
   let res := evalMacro instr cost limit base closureF body s
   (res.1, res.2, o)
 
+/-- the closure `call_block` hands to `with_execution_state`:
+`ok!(state.ctx.push_frame(..)); Self::eval_state(state, out)` — the frame is taken off again when
+the depth check of `push_frame` fails -/
+def pushThen (limit : Nat) (newFrame : Frame) (body : Body) : Body :=
+  fun s1 o1 =>
+    if s1.depth + 1 > limit then (.err, s1, o1)
+    else body { s1 with frames := newFrame :: s1.frames } o1
+
 /-- `Executor::call_block`; `required` = the block is a required block without an override -/
 def callBlock (name limit : Nat) (required : Bool) (newFrame : Frame) (body : Body) (s : St) (o : Out) :
     Res × St × Out :=
@@ -145,12 +175,7 @@ def callBlock (name limit : Nat) (required : Bool) (newFrame : Frame) (body : Bo
   | none => (.err, s, o)
   | some bs =>
     if required then (.err, s, o) else
-    withExec .keep (bs.instrs.getD bs.depth 0) s.autoEscape (some name)
-      (fun s1 o1 =>
-        -- `ok!(state.ctx.push_frame(..))`: the frame is taken off again if the depth check fails
-        if s1.depth + 1 > limit then (.err, s1, o1)
-        else body { s1 with frames := newFrame :: s1.frames } o1)
-      s o
+    withExec .keep (bs.instrs.getD bs.depth 0) s.autoEscape (some name) (pushThen limit newFrame body) s o
 
 /-- `State::render_block`: own `Output` -/
 def renderBlock (name limit : Nat) (required : Bool) (newFrame : Frame) (body : Body) (s : St) (o : Out) :
